@@ -114,6 +114,22 @@ func (p *parser) parseIdent() (Label, error) {
 	return Label(s), err
 }
 
+// parseLabelName parses label name in a label matcher.
+//
+// Unlike parseIdent, it also accepts keywords (by, json, offset, etc.) since
+// any valid label name can be used there.
+func (p *parser) parseLabelName() (Label, error) {
+	switch t := p.peek(); t.Type {
+	case lexer.Ident, lexer.String, lexer.Number, lexer.Duration, lexer.Bytes, lexer.EOF:
+	default:
+		if IsValidLabel(t.Text, p.allowDots) == nil {
+			p.next()
+			return Label(t.Text), nil
+		}
+	}
+	return p.parseIdent()
+}
+
 func (p *parser) parseString() (string, error) {
 	s, _, err := p.consumeText(lexer.String)
 	return s, err
